@@ -83,7 +83,7 @@ func runHistory(h History, scratch string, seed int64) ([]world.Event, error) {
 				}
 			}
 			if ok, _ := last.R["ok"].(bool); ok {
-				for _, v := range []string{"identical", "onebyte", "otherpath", "trailing", "identical"} {
+				for _, v := range []string{"identical", "onebyte", "otherpath", "trailing", "identical", "identical-old"} {
 					w.Exec(world.Op{Op: "replay", Kind: v})
 				}
 			} else {
